@@ -185,6 +185,9 @@ _BUILTIN_CALL_RETURN_TYPES = {
     "analog_read": "int",
 }
 
+_MAX_FOLD_BITS = 4096
+
+
 def _eval_const(expr: str, env: dict):
     """Evaluate a safe subset of Python expr to a constant using env (ints/floats/str)."""
 
@@ -339,6 +342,12 @@ def _eval_const(expr: str, env: dict):
         }
         if not isinstance(a, (int, float)) or not isinstance(b, (int, float)):
             raise ValueError("unsupported operand type")
+        if isinstance(a, int) and isinstance(b, int) and b > 0:
+            # keep folding cheap: 9**9**9**9 or 1 << 10**9 would never finish
+            if opcls is ast.Pow and abs(a) > 1 and a.bit_length() * b > _MAX_FOLD_BITS:
+                raise ValueError("constant too large to fold")
+            if opcls is ast.LShift and a.bit_length() + b > _MAX_FOLD_BITS:
+                raise ValueError("constant too large to fold")
         return ops[opcls](a, b)
 
     tree = ast.parse(expr, mode="eval")
